@@ -442,9 +442,9 @@ fn random_history(kind: Kind, rng: &mut Rng, pool: &[u64]) -> History {
             match rng.below(5) {
                 0 => b.saturating_sub(1),
                 1 => b,
-                2 => b + 1,
+                2 => b.saturating_add(1),
                 3 => b.saturating_sub(rng.below(20)),
-                _ => b + rng.below(20),
+                _ => b.saturating_add(rng.below(20)),
             }
         };
         let sender = if rng.chance(1, 10) { 62 } else { *rng.pick(&[60u64, 61]) };
